@@ -285,7 +285,9 @@ def setter_case(draw):
     nd = len(g["n"])
     return {"g": g, "k": draw(st.integers(1, 4)), "seed": draw(st.integers(0, 2**31)),
             "form": draw(st.sampled_from(["bool-array", "int-array", "float-array", "nested-list", "callable", "true",
-                                          "false", "none", "norm", "bool-array-n1"])),
+                                          "false", "none", "norm", "norm", "bool-array-n1", "field-mask", "field-mask"])),
+            # valid="norm" on integer-typed fields whose squares leave the range of the dtype
+            "norm_dtype": draw(st.sampled_from(["float", "float", "int32", "int64", "int16", "complex"])),
             "mask": draw(gen.mask_spec(nd)), "via": draw(st.sampled_from(["init", "setter"])),
             "lens": draw(st.lists(st.sampled_from([0.0, 1e-12, 1e-9, 1e-7, 1e-3, 1.0, 1e6]), min_size=1, max_size=8)),
             "near_threshold": draw(st.booleans())}
@@ -323,6 +325,17 @@ def check_setter(case):
             lens = np.where(pick, near, lens)
         model = lens > 1e-8
         val = "norm"
+        nt = case.get("norm_dtype", "float")
+        if nt in ("int32", "int64", "int16"):
+            big = {"int32": 70000, "int64": 3_100_000_000, "int16": 300}[nt]
+            srng = np.random.default_rng(case["seed"] + 9)
+            arr = (srng.integers(-9, 10, size=(*n, k)) * (big // 9)).astype(nt)
+            arr[srng.random(n) < 0.3] = 0
+            model = np.any(arr != 0, axis=-1)
+            tag("norm-" + nt)
+        elif nt == "complex":
+            arr = arr * (1 + 0j) if k == 1 else arr.astype(complex) * np.exp(1j * np.arange(k))
+            tag("norm-complex")
     elif form == "bool-array":
         val, model = M.copy(), M
     elif form == "bool-array-n1":
@@ -339,16 +352,37 @@ def check_setter(case):
         model = np.zeros(n, dtype=bool)
         for idx in lat.indices():
             model[idx] = float(lat.centre(idx)[0]) < c0
+    elif form == "field-mask":
+        # a mask given as a scalar field (a function of position) on a larger region: evaluated at this mesh's cell
+        # centres.  Source cells are twice (or 2/3) as large, so no centre lies on a source face; the source has the
+        # same cell counts (a "same discretisation" shortcut must not copy its array) or other ones
+        nd = len(n)
+        fac = 2.0 if case["seed"] % 2 == 0 else 3.0
+        n2 = list(n) if case["seed"] % 3 else [max(1, (m * 2) // 3 + 1) for m in n]
+        pmin = [float(x) for x in lat.pmin]
+        p2 = [pmin[d] + fac * float(lat.pmax[d] - lat.pmin[d]) for d in range(nd)]
+        smesh = df.Mesh(region=df.Region(p1=pmin, p2=p2, dims=list(mesh.region.dims), units=list(mesh.region.units)), n=n2)
+        srng = np.random.default_rng(case["seed"] + 5)
+        sarr = srng.random(tuple(n2)) < 0.5
+        if any((2 * i + 1) * n2[d] % (2 * fac * n[d]) == 0 for d in range(nd) for i in range(n[d])):
+            raise Reject()  # a centre on a source face
+        val = df.Field(smesh, nvdim=1, value=sarr[..., np.newaxis].astype(float))
+        model = np.zeros(n, dtype=bool)
+        for idx in lat.indices():
+            j = tuple(int(((idx[d] + 0.5) / n[d]) / fac * n2[d]) for d in range(nd))
+            model[idx] = sarr[j]
+        tag("field-mask-same-n" if n2 == list(n) else "field-mask-other-n")
     elif form == "true":
         val, model = True, np.ones(n, dtype=bool)
     elif form == "false":
         val, model = False, np.zeros(n, dtype=bool)
     else:
         val, model = None, np.ones(n, dtype=bool)
+    dkw = {"dtype": arr.dtype} if arr.dtype.kind in "ic" else {}  # integer / complex storage is asked for explicitly
     if case["via"] == "init":
-        f = df.Field(mesh, nvdim=k, value=arr, valid=val)
+        f = df.Field(mesh, nvdim=k, value=arr, valid=val, **dkw)
     else:
-        f = df.Field(mesh, nvdim=k, value=arr, valid=~M)
+        f = df.Field(mesh, nvdim=k, value=arr, valid=~M, **dkw)
         f.valid = val
     require(np.array_equal(f.array, arr), "setter-changed-values")
     v = f.valid
